@@ -60,6 +60,11 @@ def apply(xp, x, o, is_dask):
         return xp.concatenate([x, x], axis=o["axis"] - 1)
     if op == "stack":
         return xp.stack([x, x])
+    if op == "perm":
+        return xp.transpose(x, [a - 1 for a in o["axes"]])
+    if op == "concatr":
+        y = x.rechunk(rechunk_target(x.shape, o["how"])) if is_dask else x
+        return xp.concatenate([x, y], axis=o["axis"] - 1)
     raise ValueError(op)
 
 
